@@ -18,3 +18,6 @@ mixed get_stash () {
   f = stashed; stashed = 0; stash_owner = 0;     // fetched once
   return f;
 }
+// the same through efun callbacks running in THIS object
+mixed do_map (function f) { return map_array (({ 1 }), f); }
+mixed do_filter (function f) { return filter_array (({ 1 }), f); }
